@@ -323,7 +323,9 @@ def single_qubit_wrapper_info(op_list):
         definitions = definitions + oq_info.define_gate
         gate_name += oq_info.gate_name
         gate_symbol += oq_info.gate_symbol
-        def_usage += f"{oq_info.gate_name} a;\n"
+        # the wrapper denotes the matrix product of its list, i.e. the last listed gate acts first, whereas the
+        # statements of an openQASM gate body are applied from the first to the last
+        def_usage = f"{oq_info.gate_name} a;\n" + def_usage
 
     if gate_name in gate_name_dict:  # i.e. gate is already somehow defined
         return gate_name_dict[gate_name]
